@@ -18,7 +18,7 @@ from hdl21.external_module import ExternalModuleCall
 from hdl21.primitives import PrimitiveCall
 
 # number of referenced objects of the `ref` pool (see Universe.ref)
-NREF = 10
+NREF = 12
 # number of objects WITHOUT a JSON form of the `obj` pool (see Universe.obj)
 NOBJ = 12
 
@@ -121,6 +121,10 @@ class Universe:
             return self.refs[i]
         Mos, R = h.primitives.Mos, h.primitives.IdealResistor
         spell = {
+            # sets: equal values built in other orders (their iteration order also depends on the interpreter's hash seed)
+            10: lambda: [frozenset(["alpha", "beta", "gamma", "delta"]), frozenset(["delta", "gamma", "beta", "alpha"]),
+                         frozenset(["gamma", "alpha", "delta", "beta", "alpha"])],
+            11: lambda: [frozenset(["alpha", "beta"]), frozenset(["beta", "alpha"])],
             4: lambda: [Mos(w=2 * K), Mos(w=2000 * UNIT), Mos(w="2.000e3"), Mos(w=Prefixed.new(2000000, MILLI))],
             5: lambda: [Mos(w=1 * K), Mos(w=1000), Mos(w=Decimal("1.0e3"))],
             6: lambda: [self.xp(r=2 * K), self.xp(r=2000 * UNIT), self.xp(r=2000.0)],
@@ -186,7 +190,7 @@ class Universe:
         for i in (0, 1, 2, 3, 8):
             if self.ref(i) is x:
                 return i
-        for i in (4, 5, 6, 7, 9):
+        for i in (4, 5, 6, 7, 9, 10, 11):
             y = self.ref(i)
             if type(y) is type(x) and y == x:
                 return i
@@ -210,7 +214,8 @@ class Universe:
                 self.enums[n] = enum.Enum(f"E{n}", {f"M{i}": f"m{i}" for i in range(n)})
             return self.enums[n]
         if t == "ref":
-            return Union[h.Module, h.Generator, h.ExternalModule, ExternalModuleCall, PrimitiveCall]
+            from typing import FrozenSet
+            return Union[h.Module, h.Generator, h.ExternalModule, ExternalModuleCall, PrimitiveCall, FrozenSet[str]]
         if t == "scalar":
             return h.Scalar
         if t == "pref":
